@@ -44,6 +44,11 @@ theorem GInv.cancelKindFor_fst {w : World} (h : GInv ex fr w) (p : Pid) (act : N
   unfold Sim.cancelKindFor
   exact GInv.foldl (fun w q h => by ginv) _ h
 macro_rules | `(tactic| ginv_step) => `(tactic| with_reducible apply GInv.cancelKindFor_fst)
+theorem GInv.cancelUserAll_fst {w : World} (h : GInv ex fr w) :
+    GInv ex fr (cancelUserAll w).1 := by
+  unfold Sim.cancelUserAll
+  exact GInv.foldl (fun w q h => by ginv) _ h
+macro_rules | `(tactic| ginv_step) => `(tactic| with_reducible apply GInv.cancelUserAll_fst)
 
 theorem GInv.recordRes {w : World} (h : GInv ex fr w) (r : Nat) : GInv ex fr (recordRes w r) := by
   unfold Sim.recordRes; ginv
